@@ -488,6 +488,9 @@ func rawScripted0(p rawProto) []rawCfg {
 			mk(id, "conn", "send ok", "send ok", "conn", "send ok", "inj p1 ok", "recv", "drop p1", "conn", "send ok", "inj p3 ok", "recv", "recv"),
 			mk(func(c *rawCfg) { c.SQ, c.RQ = 0, 0 }, "conngated", "send ok", "send ok", "release p1", "release p1", "recv", "inj p1 ok", "inj p1 ok", "recv"),
 			mk(func(c *rawCfg) { c.SendExp, c.RecvExp, c.SQ = 2*sec, 3*sec, 1 }, "send ok", "send ok", "adv 1.999999s", "adv 1us", "recv", "adv 3s", "conn", "send badhdr", "send nohdr"),
+			// the connection fails with one message inside the transport and later ones queued behind it: the message
+			// in flight may be lost, but the next peer gets the queued ones in order and nothing twice or late
+			mk(func(c *rawCfg) { c.SQ = 4 }, "conngated", "send ok", "send ok", "send ok", "send ok", "drop p1", "conn", "send ok", "conngated", "drop p2", "conn", "send ok", "send ok"),
 		}
 	case "xpush":
 		return []rawCfg{
